@@ -66,6 +66,31 @@ def run(tier):
             res.inst("C03.R9", what)
         else:
             res.violate("C03.R9", g.body["id"] if g.body else "Paseto::parse_raw_token", what.split(":")[0], why or "gate not established", file=g.v.file() if g.body else None, line=g.body["line"] if g.body else None)
+    # R10: an altered token is *rejected* - not answered with a panic: the panic-capable sites of the 8 core consumers (and of what they
+    # call) are discharged on every path (the C09 interpreter restricted to the core consumers; the wrappers' own sites stay with C09)
+    from . import c09
+    rts, _ents = c09.roots(facts)
+    labels = set(e.label for e in core_cons)
+    rts = [r for r in rts if r[0] in labels]
+    I, npaths, unmod, aborted, covered = c09.interpret(facts, rts, "quick")
+    for site, e in sorted(I.sites.items(), key=lambda kv: str(kv[0])):
+        kind, fn, what, ln, file = site
+        okk = not e["fail"]
+        res.oblige(okk)
+        if okk:
+            res.inst("C03.R10", "%s %s in %s (line %s) cannot fire" % (kind, what, M.short(fn)[-70:], ln))
+        else:
+            why, cond = e["fail"][0]
+            res.violate("C03.R10", fn, "%s %s" % (kind, what), "a token can make this site panic instead of being rejected with an error: needs [%s]; reachable e.g. when [%s]" % (why, " & ".join(cond)[-300:]), file=file, line=ln)
+    for u, label in sorted(unmod.items()):
+        res.oblige(False)
+        res.violate("C03.R10", u, "unclassified external callee", "an external function reachable from %s is neither modelled nor known not to panic (fail closed)" % label)
+    for label, why, cond in aborted[:3]:
+        res.oblige(False)
+        res.violate("C03.R10", label, "analysis incomplete: " + str(why), "a path could not be followed to its end (%s) when [%s]" % (why, cond))
+    if len(rts) < 8:
+        res.violate("C03.R10", "(entry points)", "entry points missing", "expected the 8 core consumers, found %d" % len(rts))
+    res.floor("C03.R10", 20)
     res.floor("C03.R9", 3)
     res.floor("C03.R1", 8)
     res.floor("C03.R2", 3)
